@@ -1,6 +1,6 @@
 (* Props/C17.v -- C17: packet framing: the reader accepts every legal framing,
    the writer emits only legal framings.  Statements only. *)
-From Rpgp Require Import Base.Octets Base.Res Frame.Framing Frame.FramingProofs.
+From Rpgp Require Import Base.Octets Base.Res Frame.Framing Frame.FramingProofs Frame.BodyReader Frame.BodyReaderProofs.
 
 (* every legal current-format framing of a body -- any length class for the
    final piece, any sequence of partial chunks 2^k (k <= 30, first k >= 9,
@@ -122,4 +122,35 @@ Example C17_ex_emit :
   deframe (emit_partial 11 9 [x62; x00; x00; x00; x00; x00] (repeat x41 1100) ++ [x07]) =
   Ok ({| hf := HNew; htag := 11; hlen := PPartial 512 |},
       [x62; x00; x00; x00; x00; x00] ++ repeat x41 1100, [x07]).
+Proof. vm_compute. reflexivity. Qed.
+
+(* PacketBodyReader as the machine it is (8192-octet buffer, Take-limited source, the next partial
+   length parsed when a chunk runs out): for every sequence of request sizes it hands out exactly
+   the body that `deframe` specifies and leaves the source at the octets behind the packet ... *)
+Theorem C17_deframe_is_header_then_body : forall b,
+  deframe b =
+  match dec_header b with
+  | Ok (h, r) => match body_spec h r with Ok (x, rest) => Ok (h, x, rest) | Err => Err | Panic => Panic end
+  | Err => Err
+  | Panic => Panic
+  end.
+Proof. exact deframe_body. Qed.
+Print Assumptions C17_deframe_is_header_then_body.
+
+Theorem C17_body_reader_machine_accepts : forall (req : N -> N) h r x rest,
+  body_spec h r = Ok (x, rest) -> br_run req h r = (x, BrClean, rest).
+Proof. exact br_machine_accepts. Qed.
+Print Assumptions C17_body_reader_machine_accepts.
+
+(* ... and where `deframe` refuses (body shorter than declared, partial lengths on a non-data packet,
+   first partial chunk under 512, a chunk that ends in the middle) the machine never ends cleanly *)
+Theorem C17_body_reader_machine_rejects : forall (req : N -> N) h r,
+  body_spec h r = Err -> exists o rest, br_run req h r = (o, BrFailed, rest).
+Proof. exact br_machine_rejects. Qed.
+Print Assumptions C17_body_reader_machine_rejects.
+
+Example C17_ex_machine :
+  br_run (fun i => 1 + i) {| hf := HNew; htag := 11; hlen := PPartial 512 |}
+    (repeat x61 512 ++ [xe0] ++ [x62] ++ [x02] ++ [x63; x64] ++ [x99]) =
+  (repeat x61 512 ++ [x62; x63; x64], BrClean, [x99]).
 Proof. vm_compute. reflexivity. Qed.
